@@ -9,10 +9,14 @@ encoded source address with exactly the header consumed, anything else =>
 handler called with (None, None), no exception, bounded consumption."""
 import re, socket, struct, ipaddress, itertools, json
 
+import gevent
+from gevent.event import Event
+
 from vp.core import B, U
 
 from slimta.util import proxyproto as PP
 from slimta.util.proxyproto import ProxyProtocol, ProxyProtocolV1, ProxyProtocolV2, LocalConnection
+from slimta.edge import EdgeServer
 
 ASSUMPTIONS = [
     'socket: recv_into(buf, n) stores min(n, k, available) bytes, k >= 1 the next short-read schedule entry; 0 only at EOF; no socket errors, no timeouts',
@@ -20,6 +24,8 @@ ASSUMPTIONS = [
     'IPv6 text conversion: the theorems are stated for any inet_pton6/inet_ntop6 pair satisfying ip6_oracle (round trip, <= 39 printable non-space ASCII characters) and C18_ip6_glibc proves ip6_oracle for the glibc 2.36 algorithms written in model/Proxy.v; that libc computes what those Gallina functions compute is checked differentially on every run (every string over small alphabets to length 6-9, 2.5k-30k addresses), not proved',
     'a LOCAL command whose family/protocol byte is not 00 may end as "local" or "invalid" (the code parses the ignored address block before looking at the command); reported, not judged',
     'asserts are live (python is not run with -O)',
+    'concurrency: greenlets switch only inside recv_into (gevent); the concurrent streams park every connection at a harness gate inside recv_into (at every call, or when its current TCP segment is used up) and the harness decides which connection continues',
+    'mixin(): readers built with ProxyProtocolV1/V2/ProxyProtocol.mixin() on instances of one recording EdgeServer subclass must behave like the statically subclassed readers, whatever was mixed in before in the same process',
 ]
 
 SIG = b'\r\n\r\n\x00\r\nQUIT\n'
@@ -904,6 +910,283 @@ def check_text(ctx):
     ctx.evaluations += len(lines)
 
 
+# ------------------------------------------------------------------ concurrent connections
+class GateSocket(PPSocket):
+    """A connection among several.  recv_into parks its greenlet at a gate until
+    the harness lets this connection continue.
+    segs given : the stream arrives in these TCP segments; the gate is reached
+                 whenever the bytes delivered so far are used up (as a real gevent
+                 socket yields only when nothing is readable); being released
+                 delivers the next segment (or EOF after the last).
+    segs None  : everything is readable; the gate is reached at EVERY recv_into
+                 and `sched` gives the short-read sizes as for PPSocket."""
+
+    def __init__(self, idx, data, segs, sched, order):
+        PPSocket.__init__(self, data, sched)
+        self.idx = idx
+        self.segs = None if segs is None else list(segs)
+        self.delivered = 0 if segs is not None else len(self.data)
+        self.gate = Event()
+        self.parked = False
+        self.order = order
+
+    def _park(self):
+        self.parked = True
+        self.gate.clear()
+        self.gate.wait()
+
+    def _take(self, n):
+        if self.segs is None:
+            self._park()
+        elif self.pos >= self.delivered:
+            self._park()
+            if self.segs:
+                self.delivered += self.segs.pop(0)
+        self.order.append(self.idx)
+        k = max(1, self.sched.pop(0)) if self.sched else INF
+        m = min(n, k, self.delivered - self.pos)
+        self.requests.append((n, m))
+        out = self.data[self.pos:self.pos + m]
+        self.pos += m
+        return out
+
+
+def cut_lengths(n, cuts):
+    cuts = sorted(set(c for c in cuts if 0 < c < n))
+    pts = [0] + cuts + [n]
+    return [b - a for a, b in zip(pts, pts[1:])]
+
+
+def run_concurrent(conns, prefix):
+    """conns: [(variant, data, segs or None, sched)].  prefix: which connection is released at
+    each gate decision (beyond it: the lowest waiting one).  -> (outcomes, picks, waiting sets, order, socks)"""
+    order = []
+    socks = [GateSocket(i, d, segs, sched, order) for i, (v, d, segs, sched) in enumerate(conns)]
+    outs = [None] * len(conns)
+
+    def serve(i):
+        e = EDGES[conns[i][0]]()
+        e.got = None
+        try:
+            e.handle(socks[i], None)
+        except BaseException as ex:   # noqa
+            outs[i] = ('exc', type(ex).__name__, socks[i].pos)
+            return
+        outs[i] = ('drop', socks[i].pos) if e.got is None else ('call', caddr(e.got[0]), e.got[1])
+
+    gs = [gevent.spawn(serve, i) for i in range(len(conns))]
+    picks, waits = [], []
+    while True:
+        spins = 0
+        while any(not g.dead and not s.parked for g, s in zip(gs, socks)):
+            gevent.sleep(0)
+            spins += 1
+            if spins > 10000:
+                raise RuntimeError('concurrent run does not quiesce')
+        waiting = [i for i, (g, s) in enumerate(zip(gs, socks)) if not g.dead and s.parked]
+        if not waiting:
+            break
+        t = len(picks)
+        i = prefix[t] if t < len(prefix) and prefix[t] in waiting else waiting[0]
+        picks.append(i)
+        waits.append(waiting)
+        socks[i].parked = False
+        socks[i].gate.set()
+    return outs, picks, waits, order, socks
+
+
+def all_interleavings(conns, limit):
+    """every sequence of gate decisions, depth first"""
+    out = []
+    stack = [[]]
+    while stack and len(out) < limit:
+        prefix = stack.pop()
+        res = run_concurrent(conns, prefix)
+        out.append(res)
+        picks, waits = res[1], res[2]
+        for t in range(len(prefix), len(picks)):
+            for j in waits[t]:
+                if j != picks[t]:
+                    stack.append(picks[:t] + [j])
+    return out
+
+
+VARIANT_NO = {'v1': 0, 'v2': 1, 'auto': 2}
+
+
+def judge_concurrent(ctx, conns, res, solo, label):
+    outs, picks, waits, order, socks = res
+    case = dict(kind='concurrent', conns=[[v, d, segs, list(sched)] for v, d, segs, sched in conns], picks=list(picks))
+    ctx.count('case:' + label)
+    ctx.evaluated(('conc', tuple((v, d, tuple(segs) if segs is not None else None, tuple(sched)) for v, d, segs, sched in conns), tuple(picks)))
+    for i, (v, d, segs, sched) in enumerate(conns):
+        if outs[i] != solo[i]:
+            ctx.fail('c18:connections-interfere', dict(case, connection=i),
+                     'connection %d (%s, %r...) served next to %d other connection(s): handle did %r, alone on the same byte stream it does %r' % (
+                         i, v, d[:24], len(conns) - 1, outs[i], solo[i]))
+        elif socks[i].bad_request:
+            ctx.fail('c18:connections-interfere', dict(case, connection=i), 'recv_into asked for more than its buffer holds: %r' % (socks[i].bad_request,))
+    return case
+
+
+def model_concurrent(ctx, jobs):
+    """jobs: [(case, conns, res)] - the same global order of recv_into calls and the same read sizes through the model"""
+    inputs = []
+    for case, conns, res in jobs:
+        outs, picks, waits, order, socks = res
+        inputs.append([[[VARIANT_NO[v], d, [max(1, m) for (_, m) in socks[i].requests]] for i, (v, d, segs, sched) in enumerate(conns)], list(order)])
+    for (case, conns, res), o in zip(jobs, ctx.model.batch('c18_conc', inputs)):
+        outs = res[0]
+        mo = []
+        for c in o[0]:
+            mo.append(handle_view(model_out(c[1])) if c[0] == 1 else ('unfinished', c[1], c[2]))
+        if list(outs) != mo or o[1] != 0:
+            ctx.mismatch('concurrent', case, list(outs), dict(model=mo, picks_on_finished_readers=o[1]))
+
+
+def conc_streams():
+    v1 = enc_v1('tcp4', IP4S[2], IP4S[3], 4321, 25)
+    v2 = enc_v2(0x21, 0x11, IP4S[5] + IP4S[3] + struct.pack('!HH', 50000, 25))
+    return [
+        ('v1', v1 + b'EHLO a\r\n'),
+        ('v2', v2 + b'EHLO b\r\n'),
+        ('v1', enc_v1('unknown', rest=b' x') + b'\r\n'),
+        ('v2', enc_v2(0x20, 0x00, b'') + b'QUIT\r\n'),
+        ('v1', b'GET / HTTP/1.0\r\n\r\n'),
+        ('v1', v1[:17]),
+        ('v2', enc_v2(0x21, 0x21, IP6S[3] + IP6S[1] + struct.pack('!HH', 1, 2) + b'\x04\x00\x01\x00') + b'x'),
+        ('v1', enc_v1('tcp6', IP6S[3], IP6S[4], 1000, 9) + b'EHLO c\r\n'),
+    ]
+
+
+def gen_concurrent(ctx):
+    """2 connections, <= 3 TCP segments each, ALL interleavings of the segment arrivals; then 2-3
+    connections gated at every recv_into with random schedules"""
+    rng = ctx.rng
+    streams = conc_streams()
+    pool = streams[:6] if ctx.quick else streams
+    cutsets = [()] + [(a,) for a in (3, 6, 8, 16)] + [(a, b) for a, b in itertools.combinations((3, 6, 8, 16), 2)]
+    cutsets_b = [(), (8,), (3, 8), (6, 16)] if ctx.quick else cutsets
+    jobs = []
+    solo_cache = {}
+
+    def solo_of(conn):
+        key = (conn[0], conn[1], tuple(conn[2]) if conn[2] is not None else None, tuple(conn[3]))
+        if key not in solo_cache:
+            solo_cache[key] = run_concurrent([conn], [])[0][0]
+        return solo_cache[key]
+
+    n_int = 0
+    for (na, da), (nb, db) in itertools.product(pool, repeat=2):
+        for ca in cutsets:
+            for cb in cutsets_b:
+                va = 'auto' if (len(ca) + len(cb)) % 3 else na
+                vb = 'auto' if (len(ca) + 2 * len(cb)) % 3 != 1 else nb
+                conns = [(va, da, cut_lengths(len(da), ca), []), (vb, db, cut_lengths(len(db), cb), [])]
+                solo = [solo_of(c) for c in conns]
+                for res in all_interleavings(conns, 400):
+                    n_int += 1
+                    case = judge_concurrent(ctx, conns, res, solo, 'concurrent-2-all-interleavings')
+                    if n_int % (7 if ctx.quick else 3) == 0:
+                        jobs.append((case, conns, res))
+    ctx.count('concurrent:interleavings-2-connections', n_int)
+    ctx.sample(dict(kind='concurrent', connections=[dict(variant='auto', data=streams[0][1], segments=[6, 2, 32]), dict(variant='auto', data=streams[1][1], segments=[36])],
+                    note='all orders in which the segments of the two connections arrive'))
+    # gate at every recv_into, 2-3 connections, random short reads and random schedule
+    for _ in range(250 if ctx.quick else 6000):
+        k = rng.choice([2, 3, 3])
+        conns = []
+        for _c in range(k):
+            name, d = rng.choice(streams)
+            if rng.random() < 0.3:
+                d = (valid_v1(rng) if rng.random() < 0.5 else valid_v2(rng, 20)) + rng.choice(PAYLOADS[:6])
+                name = 'v1' if d.startswith(b'PROXY') else 'v2'
+            conns.append((rng.choice(['auto', 'auto', name]), d, None, rand_sched(rng, min(len(d), 60))))
+        prefix = [rng.randrange(k) for _p in range(rng.choice([0, 10, 40, 200]))]
+        res = run_concurrent(conns, prefix)
+        solo = [run_concurrent([c], [])[0][0] for c in conns]
+        case = judge_concurrent(ctx, conns, res, solo, 'concurrent-every-call-random')
+        jobs.append((case, conns, res))
+        for i, c in enumerate(conns):     # and the specification, per connection
+            judge(ctx, c[0], c[1], [max(1, m) for (_, m) in res[4][i].requests], res[0][i])
+    model_concurrent(ctx, jobs)
+    ctx.count('concurrent:compared-with-model', len(jobs))
+
+
+# ------------------------------------------------------------------ readers built with mixin()
+class RecEdge(EdgeServer):
+    """the wrapped edge of the mixin() runs: records what handle() is given"""
+
+    def __init__(self):
+        super(RecEdge, self).__init__(None, None, hostname='verif')
+        self.got = None
+
+    def handle(self, sock, addr):
+        self.got = (addr, sock.pos)
+
+
+MIXINS = {'v1': ProxyProtocolV1, 'v2': ProxyProtocolV2, 'auto': ProxyProtocol}
+MIXIN_HISTORY = []       # every mixin() call of this process, in order
+
+
+def mixed_edge(variant):
+    e = RecEdge()
+    MIXINS[variant].mixin(e)
+    MIXIN_HISTORY.append(variant)
+    return e
+
+
+def edge_handle(e, data, sched):
+    e.got = None
+    s = PPSocket(data, sched)
+    try:
+        e.handle(s, None)
+    except BaseException as ex:   # noqa
+        return ('exc', type(ex).__name__, s.pos)
+    if e.got is None:
+        return ('drop', s.pos)
+    return ('call', caddr(e.got[0]), e.got[1])
+
+
+def mixin_streams():
+    return [enc_v1('tcp4', IP4S[2], IP4S[3], 4321, 25) + b'EHLO a\r\nMAIL FROM:<a@b>\r\n',
+            enc_v2(0x21, 0x11, IP4S[5] + IP4S[3] + struct.pack('!HH', 50000, 587) + b'\x04\x00\x03abc') + b'EHLO b\r\nMAIL FROM:<a@b>\r\n',
+            enc_v1('unknown') + b'x',
+            enc_v2(0x20, 0x00, b'') + b'x',
+            enc_v2(0x21, 0x31, pad(b'/a') + pad(b'/b')) + b'x',
+            b'HELO there\r\n']
+
+
+def check_mixed(ctx, e, variant, index):
+    def wf_first(d):
+        sp_ = spec(variant, d)
+        return 0 if sp_ is not None and sp_[0] == 'ok' and sp_[1] != ('none',) else 1
+    for data in sorted(mixin_streams(), key=wf_first):
+        for sched in ([], [1] * 400, [3] * 200):
+            got = edge_handle(e, data, sched)
+            want = impl_handle(variant, data, sched)
+            ctx.evaluated(('mixin', index, variant, data, len(sched)))
+            ctx.count('case:mixin')
+            if got != want or not isinstance(e, MIXINS[variant]):
+                ctx.fail('c18:mixin-selects-wrong-parser',
+                         dict(kind='mixin', history=list(MIXIN_HISTORY[:index + 1]), variant=variant, data=data, sched=list(sched)),
+                         '%s.mixin(edge) as mixin() call number %d of the process (before it: %s): the edge is a %s and handle did %r; the statically subclassed %s reader does %r' % (
+                             MIXINS[variant].__name__, index + 1, ','.join(MIXIN_HISTORY[:index]) or 'none', type(e).__name__, got, MIXINS[variant].__name__, want))
+                return
+
+
+def gen_mixin(ctx):
+    """V1 / V2 / auto mixed into instances of ONE edge class, in every order, with repetitions"""
+    for perm in itertools.permutations(['v1', 'v2', 'auto']):
+        made = []
+        for v in perm + perm[::-1] + perm:
+            made.append((v, mixed_edge(v), len(MIXIN_HISTORY) - 1))
+        for v, e, index in made:           # all edges of the round exist before any is used
+            check_mixed(ctx, e, v, index)
+    ctx.count('mixin:calls', len(MIXIN_HISTORY))
+
+
+
 def run(ctx):
     ctx.extra['rule'] = (
         'cases = (class in {ProxyProtocolV1, ProxyProtocolV2, ProxyProtocol}, byte stream, short-read schedule). Streams: valid v1/v2 headers with boundary values of '
@@ -912,7 +1195,9 @@ def run(ctx):
         'each v1 field; every value of the v2 version/command and family/protocol bytes; random garbage with PROXY/signature prefixes; schedules: none, all-1, all-2, random, '
         'and every distinct short-read behaviour for headers of 15-24 bytes. Compared with the model: (src, dst) or the AssertionError message or LocalConnection from '
         'process_pp_v1/process_pp_v2, the address handle() passes on, bytes consumed at that moment. Oracle: independent recogniser of the specification. '
-        'distinct_nontrivial counts distinct (class, stream, schedule) whose stream starts with "PROXY " or the v2 signature prefix')
+        'Concurrent connections: 2 connections x <= 3 TCP segments each x ALL orders of segment arrival (each connection parked inside recv_into until the harness releases it), and 2-3 connections gated at every recv_into with seeded random schedules; per connection the outcome must be what the same stream gives alone, and the model (run_conns with the observed order of recv_into calls) must agree. '
+        'mixin(): V1/V2/auto mixed into instances of one recording EdgeServer subclass in all 6 orders with repetitions, each edge compared with the statically subclassed reader. '
+        'distinct_nontrivial counts distinct (class, stream, schedule) whose stream starts with "PROXY " or the v2 signature prefix, every concurrent run and every mixin run')
     ctx.extra['trusted_base'] = [
         'libc inet_pton/inet_ntop (IPv4 and IPv6 text): modelled by the glibc 2.36 algorithms written in Gallina (model/Proxy.v: pton4, ntop4, glibc_pton6, glibc_ntop6); C18_ip6_glibc proves the IPv6 pair satisfies the hypothesis of the exactness theorems; agreement with the running libc is differential (this run)',
         'Python semantics taken as modelled: bytes.split/startswith/endswith/rstrip/isdigit, int() on ASCII digits, struct.unpack raising struct.error on short input, str.decode("ascii"), socket.inet_pton raising ValueError on NUL; exception flow (try/except) is explicit in the model',
@@ -927,6 +1212,8 @@ def run(ctx):
     gen_random_valid(ctx, 1500 if ctx.quick else 40000)
     gen_garbage(ctx, 2000 if ctx.quick else 60000)
     gen_all_schedules(ctx)
+    gen_mixin(ctx)
+    gen_concurrent(ctx)
 
 
 def replay(ctx, case):
@@ -934,6 +1221,29 @@ def replay(ctx, case):
 
     def unhex(x):
         return bytes.fromhex(x['hex']) if isinstance(x, dict) else x
+    if c.get('kind') == 'concurrent':
+        conns = [(v, unhex(d), segs, list(sched)) for v, d, segs, sched in c['conns']]
+        res = run_concurrent(conns, list(c['picks']))
+        print('gate decisions (which connection continues):', res[1])
+        print('global order of recv_into calls           :', res[3])
+        for i, conn in enumerate(conns):
+            print('connection %d: %s stream=%r segments=%r' % (i, conn[0], conn[1], conn[2]))
+            print('   concurrently: %r   recv_into (asked, got): %r' % (res[0][i], res[4][i].requests))
+            print('   alone       : %r' % (run_concurrent([conn], [])[0][0],))
+        if ctx.model:
+            o = ctx.model.call('c18_conc', [[[VARIANT_NO[v], d, [max(1, m) for (_, m) in res[4][i].requests]] for i, (v, d, segs, sched) in enumerate(conns)], list(res[3])])
+            print('model        :', [handle_view(model_out(x[1])) if x[0] == 1 else ('unfinished',) + tuple(x[1:]) for x in o[0]])
+        return 0
+    if c.get('kind') == 'mixin':
+        data = unhex(c['data']); sched = list(c.get('sched', []))
+        e = None
+        for v in c['history']:
+            e = mixed_edge(v)
+        print('mixin() calls of the process:', c['history'])
+        print('last edge is a', type(e).__name__, [k.__name__ for k in type(e).__mro__[:3]])
+        print('its handle()            :', edge_handle(e, data, sched))
+        print('static %-17s:' % MIXINS[c['variant']].__name__, impl_handle(c['variant'], data, sched))
+        return 0
     data = unhex(c['data'])
     sched = list(c.get('sched', []))
     v = c['variant']
